@@ -209,6 +209,22 @@ def analyse(case):
         impl["out"] = ctx.canon_circuit(r["out"])
         impl["shape_out"] = dict(circuit_registers(r["out"]), global_phase=float(r["out"].global_phase))
         impl["pipeline"] = pipeline_width(r["out"]) if inp.get("pipeline") else None
+        # the QPD bases actually placed in the returned circuit vs the basis of the INPUT gate at the same position
+        placed = []
+        j = 0
+        for pos, ci in enumerate(r["out"].data):
+            if ci.operation.name == "cut_wire":
+                continue
+            if isinstance(ci.operation, TwoQubitQPDGate) and j < len(qc.data) and not isinstance(qc.data[j].operation, TwoQubitQPDGate):
+                try:
+                    want = QPDBasis.from_instruction(qc.data[j].operation)
+                    same = bool(ci.operation.basis == want)
+                    kin = str(Fraction(float(want.kappa)))
+                except Exception as e:  # noqa: BLE001
+                    same, kin = False, f"{type(e).__name__}"
+                placed.append([pos, str(Fraction(float(ci.operation.basis.kappa))), kin, same])
+            j += 1
+        impl["placed"] = placed
         md = r["md"]
         impl["cuts"] = [[k, int(i)] for k, i in md["cuts"]]
         impl["overhead"] = str(Fraction(float(md["sampling_overhead"])))
@@ -373,6 +389,8 @@ def generate(rng, tier, outdir):
     max2q = 10 if quick else 25
     visit_cap = 2000 if quick else 2000
 
+    flagged = []      # cases the oracle rejects: written to cases_-flagged.json so that run.py's search step reports them
+
     def judged(case, contract="judge_accepts_clean_case"):
         # the property-level oracle must accept every case generated on the unchanged tree (a flagged case is either a real
         # finding or a false alarm of the oracle; both must surface on a green run, not only after some unrelated mismatch)
@@ -381,6 +399,8 @@ def generate(rng, tier, outdir):
         except Exception as e:  # noqa: BLE001
             v = dict(violates=True, detail=f"judge raised {type(e).__name__}: {e}")
         w.contract(contract, not v.get("violates"))
+        if v.get("violates") and len(flagged) < 20:
+            flagged.append(case)
         if v.get("violates") and len(w.notes) < 5:
             w.notes.append(dict(contract=contract, detail=v["detail"][:400], input=case["input"],
                                 impl={k: case["impl"].get(k) for k in ("status", "error", "cuts", "overhead", "out")}))
@@ -457,6 +477,12 @@ def generate(rng, tier, outdir):
              dict(name="cx", qs=[1, 2])]),
         # the same pair cut repeatedly: both-wire cuts inside one subcircuit
         (2, [dict(name="cx", qs=[0, 1]), dict(name="cx", qs=[1, 0]), dict(name="iswap", qs=[0, 1])]),
+        # repeated pairs (ApplyGate on two qubits that already share a subcircuit) followed by gates that force wire cuts
+        (3, [dict(name="cx", qs=[0, 1]), dict(name="cx", qs=[0, 1]), dict(name="cx", qs=[0, 2]), dict(name="cx", qs=[0, 1])]),
+        (4, [dict(name="cx", qs=[2, 3]), dict(name="cz", qs=[3, 2]), dict(name="cx", qs=[2, 3]), dict(name="cx", qs=[1, 2]),
+             dict(name="cx", qs=[2, 3]), dict(name="cx", qs=[1, 0]), dict(name="cx", qs=[0, 1]), dict(name="cx", qs=[0, 3])]),
+        (3, [dict(name="cx", qs=[1, 2]), dict(name="cx", qs=[1, 2]), dict(name="cx", qs=[2, 1]), dict(name="cx", qs=[0, 1]),
+             dict(name="cx", qs=[1, 2]), dict(name="cx", qs=[1, 2]), dict(name="cx", qs=[0, 2])]),
     ]
     for nq, ops in targeted:
         for W in range(1, nq + 1):
@@ -535,6 +561,29 @@ def generate(rng, tier, outdir):
         w.count("wide.regs", "one" if not regs else len(regs))
         if case["impl"]["status"] == "ok":
             w.count("wide.cuts", min(len(case["impl"]["cuts"]), 8))
+    # ---- judge-only: several gate cuts of ONE parametrised family with DIFFERENT angles (each cut gate must carry the basis of
+    # ITS input gate; overhead = product over the bases actually placed) ----
+    n_fam = 24 if quick else 150
+    for it in range(n_fam):
+        fam = fam_angle[it % len(fam_angle)]
+        k = int(rng.integers(2, 4))                      # k pairs joined in a ring by k gates of the family; W = 2, gate cuts only
+        nq = 2 * k
+        ops = []
+        for a in range(k):
+            ops.append(dict(name="cx", qs=[2 * a, 2 * a + 1]))
+        angles = [float(x) for x in rng.permutation([0.25, 0.6, 1.1, 1.7, 2.0, 2.6])[:k]]
+        for a in range(k):
+            ops.append(dict(name=fam, params=[angles[a]], qs=[2 * a + 1, (2 * a + 2) % nq]))
+            if rng.random() < 0.4:
+                ops.append(dict(name="h", qs=[int(rng.integers(0, nq))]))
+        inp = dict(nq=nq, ops=ops, W=2, gate_lo=True, wire_lo=bool(rng.random() < 0.3), max_gamma=1024,
+                   max_backjumps=[10000, None, 0][int(rng.integers(0, 3))], seed=int(rng.integers(0, 1000)), pipeline=True)
+        case = dict(kind="families", input=inp)
+        analyse(case)
+        judged(case, contract="families_stream_judge_ok")
+        w.count("families.family", fam)
+        w.count("families.gate_cuts", sum(1 for kd, _ in (case["impl"].get("cuts") or []) if kd == "Gate Cut"))
+
     # observation (outside the model: Q has no infinity): max_gamma = inf with a dead-ended greedy pass -> OverflowError
     for ops, W, gl, wl in (([dict(name="cx", qs=[0, 1])], 1, False, True),
                            ([dict(name="cx", qs=[0, 1]), dict(name="opaque2", qs=[1, 2])], 2, True, False),
@@ -543,6 +592,12 @@ def generate(rng, tier, outdir):
                                            max_backjumps=10, seed=1))
         analyse(case)
         w.count("observation.max_gamma_inf", f"{case['impl']['status']}: {str(case['impl'].get('error'))[:60]}")
+
+    if flagged:
+        os.makedirs(outdir, exist_ok=True)
+        import json as _json
+        with open(os.path.join(outdir, "cases_-flagged.json"), "w") as f:
+            _json.dump(flagged, f, default=str)
 
     return w.finish(
         rule="random circuits on 2..8 qubits with up to %d two-qubit gates from {cx,cz: gamma 3; iswap,dcx,swap: gamma 7} (exact in "
@@ -784,6 +839,19 @@ def judge(case):
                 exact = exact and kap.denominator == 1
                 prod *= kap ** 2
     prod *= Fraction(16) ** sum(1 for d in out if d["op"][0] == "cut_wire")
+    # (5b) every cut gate carries the QPD basis of the input gate at its position (same maps/coefficients, same kappa), and the
+    # reported overhead is the product over the bases ACTUALLY in the returned circuit
+    if impl.get("placed") is not None:
+        prod2 = Fraction(16) ** sum(1 for d in out if d["op"][0] == "cut_wire")
+        for pos, kout, kin, same in impl["placed"]:
+            if not same:
+                problems.append(f"cut gate at output position {pos} does not carry the QPD basis of the input gate there "
+                                f"(kappa {float(Fraction(kout)):.6g} instead of {kin if '/' not in kin else float(Fraction(kin)):.6g})"
+                                if "/" in kin or kin.isdigit() else f"cut gate at {pos}: basis of the input gate unavailable ({kin})")
+            prod2 *= Fraction(kout) ** 2
+        if abs(Fraction(impl["overhead"]) - prod2) > prod2 * Fraction(1, 10 ** 9):
+            problems.append(f"reported overhead {float(Fraction(impl['overhead'])):.9g} != product over the cut gates and markers actually "
+                            f"in the returned circuit {float(prod2):.9g}")
     got = Fraction(impl["overhead"])
     if exact and prod <= 2 ** 52:
         acc_ok = got == prod
